@@ -22,7 +22,7 @@ LEVEL = 'exploration'
 RULE = ('(t) one case = (position of the timed phase in {plain, group setup, group main, group '
         'teardown}, time-out in {10 s, 1 s, 0, default 180 s}, body end relative to the deadline '
         'in {-2P, -eps, +eps, +P-eps, +P+eps, never (killable), never (unkillable), unkillable '
-        'then acts later}, repeat_on_timeout yes/no, own result CONTINUE / FAIL_AND_CONTINUE) '
+        'then acts later, -2P with the thread kept alive past the deadline by a slow log handler}, repeat_on_timeout yes/no, own result CONTINUE / FAIL_AND_CONTINUE) '
         'with P = the join poll interval, all enumerated; (k) one case = (kill scenario, pause '
         'point (function, line, hit) of threads.py reached by the killable thread or by the '
         'killer), all enumerated; distinct = distinct case; non-trivial = the timed body / the '
@@ -32,7 +32,7 @@ ASSUMPTIONS = [
     'thread-identifier reuse between is_alive() and PyThreadState_SetAsyncExc is out of reach (documented upstream)',
     'an abandoned body can only act later if it swallows the termination request',
 ]
-REQUIRED_COUNTERS = ['timing_cases', 'timeouts_observed', 'own_results_kept',
+REQUIRED_COUNTERS = ['timing_cases', 'timeouts_observed', 'own_results_kept', 'slow_exits',
                      'kill_schedules', 'kills_performed', 'bodies_prevented',
                      'bodies_killed', 'kills_without_effect']
 EXHAUSTIVE = {'quick': True, 'thorough': True}
@@ -68,7 +68,7 @@ def teardown():
 POSITIONS = ['plain', 'setup', 'main', 'teardown']
 TIMEOUTS = [10, 1, 0, None]
 ENDS = ['-2P', '-eps', '+eps', '+P-eps', '+P+eps', 'never', 'unkillable',
-        'unkillable_acts']
+        'unkillable_acts', 'early_slow_exit']
 
 
 def enumerated(tier):
@@ -77,7 +77,8 @@ def enumerated(tier):
       for end in ENDS:
         for rep in (False, True):
           for own in ('C', 'F'):
-            if tier == 'quick' and own == 'F' and end not in ('-eps', '+eps'):
+            if tier == 'quick' and own == 'F' and end not in ('-eps', '+eps',
+                                                              'early_slow_exit'):
               continue
             yield {'k': 't', 'pos': pos, 'timeout': tmo, 'end': end,
                    'repeat': rep, 'own': own}
@@ -105,7 +106,11 @@ def run_timing(case):
   d = default if case['timeout'] is None else case['timeout']
   end = case['end']
   dur = {'-2P': d - 2 * P, '-eps': d - EPS, '+eps': d + EPS,
-         '+P-eps': d + P - EPS, '+P+eps': d + P + EPS}.get(end)
+         '+P-eps': d + P - EPS, '+P+eps': d + P + EPS,
+         # the body returns well before the deadline, but the thread that ran it
+         # is kept alive beyond the deadline by a slow log handler (what the
+         # thread logs on its way out)
+         'early_slow_exit': d - 2 * P}.get(end)
   if dur is not None and dur < 0:
     dur = 0.0
   log = pm.EventLog()
@@ -194,9 +199,54 @@ def run_timing(case):
   threading.excepthook = lambda a: crashes.append(
       (a.exc_type.__name__, getattr(a.thread, 'name', '?')))
   wall0 = time.monotonic()
+  slow = None
+  if end == 'early_slow_exit':
+    import logging
+    slept = []
+
+    class SlowExitHandler(logging.Handler):
+      # the delay sits in filter(), which logging calls without holding the
+      # handler lock, so other threads' log calls are not blocked by it
+
+      def filter(self, record):
+        th = threading.current_thread()
+        if ('(timed)' in th.name and not slept and
+            any(e[2] == 'end' and e[3] == 'timed' for e in log.events)):
+          slept.append(1)
+          log.add('slow_exit', 'timed', 0, vc.monotonic())
+          # parked in virtual time until deadline + 2P, or until the executor
+          # has moved on (nobody advances the clock for this thread after that)
+          with vc.cv:
+            wake = vc.now + 4 * P
+            vc.sleepers[th] = wake
+            vc.cv.notify_all()
+            t_end = time.monotonic() + 5
+            try:
+              def moved_on():
+                end_seq = max(e[0] for e in log.events
+                              if e[2] == 'end' and e[3] == 'timed')
+                return any(e[0] > end_seq and (
+                    e[2] == 'plug_td' or (e[2] == 'start' and e[3] != 'timed'))
+                           for e in log.events)
+              while (vc.now < wake and time.monotonic() < t_end and
+                     not moved_on()):
+                vc.cv.wait(0.005)
+            finally:
+              vc.sleepers.pop(th, None)
+              vc.cv.notify_all()
+        return False
+
+      def emit(self, record):
+        pass
+
+    slow = SlowExitHandler(level=logging.DEBUG)
+    logging.getLogger('openhtf').addHandler(slow)
   try:
     t.execute()
   finally:
+    if slow is not None:
+      logging.getLogger('openhtf').removeHandler(slow)
+      c['slow_exits'] = 1 if any(e[2] == 'slow_exit' for e in log.events) else 0
     threading.excepthook = old_hook
     release.set()
     pm.prune_handlers()
@@ -220,7 +270,7 @@ def run_timing(case):
     return {'sig': case, 'violations': viol, 'counters': c}
   res = pm.res_name(first.result)
   own_res = 'CONTINUE' if case['own'] == 'C' else 'FAIL_AND_CONTINUE'
-  zone = ('early' if end in ('-2P', '-eps') else
+  zone = ('early' if end in ('-2P', '-eps', 'early_slow_exit') else
           'grey' if end in ('+eps', '+P-eps') else 'late')
   if d == 0 and zone == 'early':
     zone = 'grey'      # a zero time-out expires at once
